@@ -38,6 +38,8 @@
 //!        change, and exactly the files whose stored entries differ between the two versions.  Input {"case": ".."}.
 //!  * `second_close_keeps_tail` (C07): `Band::close` on an already closed band (re-opened with `Band::open`) must
 //!        not remove or alter any file that existed before the call.  Input {"tail": "own"|"foreign"}.
+//!  Round 8, `diff_agrees`: further cases {"case": "order: <tree>: <mutation>"} on trees whose string order and apath order
+//!        differ (see `diff_order_cases`): diff and the backup's change callback equal the model difference, in order.
 
 use std::collections::{BTreeMap, BTreeSet};
 use std::os::unix::fs::{symlink, PermissionsExt};
@@ -1127,9 +1129,109 @@ fn diff_agrees(only: Option<&Value>) -> R {
                     "diff does not report exactly the files whose stored metadata or content addresses differ");
             }
         }
-        Ok(None)
+        diff_order_cases(only, tmp.path()).await
     })
 }
+
+/// Round 8: trees in which STRING order and APATH order of the paths differ (`/a/c` with `/b`; `/a.b`, `/a-b/x` with
+/// `/a/x`; a top-level file next to a directory with children), one file removed / added / grown at a time.  The
+/// expected difference is computed here from the two source trees alone, in the documented apath order (transcription
+/// `w_apath::doc_cmp`): `diff(stored, source)` must be exactly that sequence; the change callback of the next backup
+/// must report the same sequence (it does not report ADDED DIRECTORIES -- `copy_dir` returns no change on the unchanged
+/// tree --, none is added here); the new version lists exactly the paths of the new tree.
+/// Input {"case": "order: <tree>: <mutation>"}.
+async fn diff_order_cases(only: Option<&Value>, tmp: &Path) -> R {
+    const K: &str = "diff_agrees";
+    const T: i64 = 1_650_000_000;
+    let trees: [(&str, &[&str], &[&str]); 4] = [
+        ("t1", &["a/c", "b"], &["b-new", "a/d", "0", "a/b", "c"]),
+        ("t2", &["a.b", "a/x", "a/y", "a-b/x", "a0"], &["a-", "a/x2", "a-b/w", "a!", "a-b/y", "a/a", "b"]),
+        ("t3", &["dir/one", "dir/two", "dir/sub/three", "m"], &["dir.txt", "e", "c", "dir-", "dir0", "dir/sub/a", "dir/zz", "n"]),
+        ("t4", &["x/y/z", "x/y.z", "x.y/z", "x/yy", "w"], &["x/y/a", "x-", "x/y-", "x.y/a", "x/z", "y"]),
+    ];
+    let mut n = 0;
+    for (tname, files, adds) in trees {
+        let mut mutations: Vec<(String, &str, &str)> = Vec::new();
+        for f in files {
+            mutations.push((format!("remove {f}"), "remove", f));
+            mutations.push((format!("grow {f}"), "grow", f));
+        }
+        for f in adds {
+            mutations.push((format!("add {f}"), "add", f));
+        }
+        for (mname, op, path) in mutations {
+            let case = format!("order: {tname}: {mname}");
+            if skip(only, "case", &json!(case)) {
+                continue;
+            }
+            n += 1;
+            let root = tmp.join(format!("order{n}"));
+            let src = root.join("src");
+            for f in files {
+                put(&src, f, &content(f, 11))?;
+            }
+            pin_all(&src, T, 0)?;
+            let before = tree_snapshot(&src);
+            let archive = su!(Archive::create_path(&root.join("archive")).await);
+            su!(conserve::backup(&archive, &src, &BackupOptions::default(), Arc::new(VoidMonitor)).await);
+            match op {
+                "remove" => su!(std::fs::remove_file(src.join(path))),
+                "grow" => put(&src, path, &content(path, 23))?,
+                _ => put(&src, path, &content(path, 7))?,
+            }
+            pin_all(&src, T, 0)?;
+            let after = tree_snapshot(&src);
+            // the model difference, in apath order
+            let mut paths: Vec<&String> = before.keys().chain(after.keys().filter(|k| !before.contains_key(*k))).collect();
+            paths.sort_by(|x, y| super::w_apath::doc_cmp(x, y));
+            let mut model: Vec<String> = Vec::new();
+            for p in &paths {
+                match (before.get(*p), after.get(*p)) {
+                    (Some(_), None) => model.push(format!("- {p}")),
+                    (None, Some(_)) => model.push(format!("+ {p}")),
+                    (Some(x), Some(y)) if x != y => model.push(format!("* {p}")),
+                    _ => {}
+                }
+            }
+            if model.is_empty() || model.iter().any(|l| l.starts_with('+') && after.get(&l[2..]) == Some(&None)) {
+                return Err(format!("setup failed: case {case:?} has the model difference {model:?} (empty, or a directory is added)"));
+            }
+            let mut after_paths: Vec<String> = std::iter::once("/".to_string()).chain(after.keys().cloned()).collect();
+            after_paths.sort_by(|x, y| super::w_apath::doc_cmp(x, y));
+            let input = json!({"case": case, "tree": files, "mutation": mname, "tree_lists_in_apath_order_as": after_paths});
+            let st = su!(archive.open_stored_tree(BandSelectionPolicy::Latest).await);
+            let lt = su!(SourceTree::open(&src));
+            let mut d = su!(conserve::diff(&st, &lt, DiffOptions::default(), Arc::new(VoidMonitor)).await);
+            let diffed: Vec<String> = d.collect().await.iter().map(|c| format!("{} {}", c.change.sigil(), AsRef::<str>::as_ref(&c.apath))).collect();
+            if diffed != model {
+                return found(K, input, format!("diff reports {diffed:?}"), &format!("{model:?}"),
+                    "diff of the stored version against the tree is not the difference of the two trees: the two listings are not aligned in apath order (direct children of a directory come before the contents of its subdirectories)");
+            }
+            let seen: Arc<Mutex<Vec<String>>> = Arc::new(Mutex::new(Vec::new()));
+            let s2 = seen.clone();
+            let o = BackupOptions { change_callback: Some(Box::new(move |ch| { if !ch.change.is_unchanged() { s2.lock().unwrap().push(format!("{} {}", ch.change.sigil(), AsRef::<str>::as_ref(&ch.apath))); } Ok(()) })), ..BackupOptions::default() };
+            let stats = su!(conserve::backup(&archive, &src, &o, Arc::new(VoidMonitor)).await);
+            let backed: Vec<String> = seen.lock().unwrap().clone();
+            if backed != model {
+                return found(K, input, format!("the backup's change callback reports {backed:?} (new_files = {}, modified_files = {})", stats.new_files, stats.modified_files), &format!("{model:?}"),
+                    "the changes reported by a backup are not the difference between the previous version and the tree");
+            }
+            let want_new = model.iter().filter(|l| l.starts_with('+')).count();
+            let want_mod = model.iter().filter(|l| l.starts_with('*')).count();
+            if stats.new_files != want_new || stats.modified_files != want_mod {
+                return found(K, input, format!("backup stats: new_files = {}, modified_files = {}", stats.new_files, stats.modified_files), &format!("new_files = {want_new}, modified_files = {want_mod}"),
+                    "the backup counts files as new / modified that are not (basis and source listings were not aligned)");
+            }
+            let e1 = entries(&archive, BandSelectionPolicy::Specified(bid(1)), Apath::root(), TestMonitor::arc()).await?;
+            let listed: Vec<String> = e1.iter().map(|e| String::from(e.apath.clone())).collect();
+            if listed != after_paths {
+                return found(K, input, format!("the new version lists {listed:?}"), &format!("{after_paths:?}"), "the version stored after the change does not list the tree in apath order, every path once");
+            }
+        }
+    }
+    Ok(None)
+}
+
 
 // ------------------------------------------------------------------------------------------------------------ C07
 fn second_close_keeps_tail(only: Option<&Value>) -> R {
